@@ -269,12 +269,15 @@ func dump(ctx *app.RequestContext) []string {
 	return out
 }
 
-const dirtyReq = "POST /dirty/7?q=9&x=dq HTTP/1.1\r\nHost: d\r\nCookie: c=1; dk=2\r\nX-D: 1\r\nUser-Agent: dirty-ua\r\nContent-Type: application/x-www-form-urlencoded\r\nContent-Length: 7\r\n\r\na=b&x=y"
-const dirtyReqClose = "POST /dirty/7?q=9&x=dq HTTP/1.1\r\nHost: d\r\nCookie: c=1; dk=2\r\nX-D: 1\r\nConnection: close\r\nContent-Type: application/x-www-form-urlencoded\r\nContent-Length: 7\r\n\r\na=b&x=y"
+// (every list of the dirty request starts with an entry named X-Dirty, the name the generated Del / Set operations use: deleting
+// it removes an entry that is not the last of its list)
+const dirtyReq = "POST /dirty/7?X-Dirty=0&q=9&x=dq HTTP/1.1\r\nHost: d\r\nX-Dirty: hv\r\nCookie: X-Dirty=1; c=1; dk=2\r\nX-D: 1\r\nUser-Agent: dirty-ua\r\nContent-Type: application/x-www-form-urlencoded\r\nContent-Length: 17\r\n\r\nX-Dirty=1&a=b&x=y"
+const dirtyReqClose = "POST /dirty/7?X-Dirty=0&q=9&x=dq HTTP/1.1\r\nHost: d\r\nX-Dirty: hv\r\nCookie: X-Dirty=1; c=1; dk=2\r\nX-D: 1\r\nConnection: close\r\nContent-Type: application/x-www-form-urlencoded\r\nContent-Length: 17\r\n\r\nX-Dirty=1&a=b&x=y"
 
 // the probe deliberately has fewer and shorter fields than the dirty request and key-only last tokens, so that stale
 // slots of recycled argument / cookie / header storage become visible
-const probeReq = "POST /probe/p?x=1&flag HTTP/1.1\r\nHost: h\r\nX-P: 1\r\nCookie: pc=1; pflag\r\nContent-Type: application/x-www-form-urlencoded\r\nContent-Length: 7\r\n\r\na=1&pfl"
+// (the probe fills every list to the length it had in the dirty request; the last entries stay short and key-only)
+const probeReq = "POST /probe/p?x=1&m=2&flag HTTP/1.1\r\nHost: h\r\nX-P: 1\r\nX-Q: 22\r\nCookie: pc=1; pm=2; pflag\r\nContent-Type: application/x-www-form-urlencoded\r\nContent-Length: 11\r\n\r\na=1&m=2&pfl"
 
 type worker struct {
 	servers   map[bool]*srvh.Server
